@@ -176,8 +176,7 @@ func (ex *Exec) run() {
 			}
 			ex.oblige("ensures@return", label, fn.Pos(), e.Props, ret, c)
 		}
-		// declared ghost updates must be what the body did (for non-stubs they
-		// are part of the postcondition)
+		ex.checkFrame(fc, ret, fn)
 		// every call-site clause must have found its call (contract-stale guard)
 		for _, s := range fc.Sites {
 			if !ex.sitesHit[fmt.Sprintf("spec:%s#%d", s.Callee, s.Occ)] {
@@ -417,5 +416,71 @@ func (ex *Exec) siteHooksAfter(fr *Frame, st *State, instr ssa.Instruction, name
 			ex.assume(st.PC, c)
 			ex.assumedClauses = append(ex.assumedClauses, fmt.Sprintf("%s: at call %s assume_post %s -- %s", FuncName(ex.fn), s.Callee, a.Text, a.Label))
 		}
+	}
+}
+
+// checkFrame: a function under contract that declares its frame (modifies /
+// pure) must not change anything else: callers rely on that frame instead of
+// the inferred write-set. The declared targets are havocked with identical
+// symbols in a copy of the entry state and in a copy of the return state;
+// whatever still differs afterwards was written outside the frame. Fields
+// guarded by a monitor whose lock this function acquired are excluded: other
+// threads may have changed them (they were havocked at the acquisition).
+func (ex *Exec) checkFrame(fc *FuncContract, ret *State, fn *ssa.Function) {
+	if !fc.HasMod || fc.IsStub || fc.Trusted {
+		return
+	}
+	if fc.FrameTrusted != "" {
+		ex.assumedClauses = append(ex.assumedClauses, fmt.Sprintf("%s: declared frame (modifies) assumed, not proved -- %s", FuncName(fn), fc.FrameTrusted))
+		return
+	}
+	ts := ex.ts
+	apply := func(target *State) {
+		ts.frameMode = true
+		ts.frameSeq = 0
+		defer func() { ts.frameMode = false }()
+		ctx := &EvalCtx{ex: ex, st: ex.entry, hst: target, old: ex.entry, env: ex.entryEnv, pkg: fc.Pkg, fnPos: fn.Pos()}
+		for _, m := range fc.Modifies {
+			if err := ctx.havocTarget(m.Expr); err != nil {
+				ex.contractProblem("%s: modifies %s: %v", fc.Pos, m.Text, err)
+			}
+		}
+		for _, k := range fc.Havoc {
+			ex.havocKey(target, k)
+		}
+		for _, g := range fc.Ghosts {
+			decl, ok := ex.prog.Contracts.GhostMaps[g.Map]
+			if !ok {
+				continue
+			}
+			k, _, err := ctx.evalTerm(g.Key)
+			if err != nil {
+				continue
+			}
+			arr := ex.heapGet(target, "G:"+g.Map, SArray(ghostSort(decl.Key), ghostSort(decl.Val)))
+			ex.heapSet(target, "G:"+g.Map, ts.Store(arr, k, ts.Fresh("g!"+g.Map, ghostSort(decl.Val))))
+		}
+	}
+	e1 := ex.entry.Clone()
+	apply(e1)
+	f1 := ret.Clone()
+	apply(f1)
+	skip := KeySet{}
+	for mk := range ex.monitorsAcquired {
+		if md := ex.prog.Contracts.Monitors[mk]; md != nil {
+			ex.prog.Pre.monitorKeys(md, skip)
+		}
+	}
+	diff := ex.heapDiff(f1, e1)
+	var keys []string
+	for k := range diff {
+		if skip[k] {
+			continue
+		}
+		keys = append(keys, k)
+	}
+	sort.Strings(keys)
+	for _, k := range keys {
+		ex.oblige("frame@return", k, fn.Pos(), fc.Props, ret, diff[k])
 	}
 }
